@@ -761,6 +761,14 @@ HOSTILE_EXPRS = [
   "True", "None", "'plain'", "12345678901234567890", "0.1 + 0.2", "-0.0",
   "__import__('decimal').Decimal('1.5')", "__import__('fractions').Fraction(1, 3)",
   "Ellipsis", "NotImplemented", "[r for r in [rec]]", "{'k': rec}", "(1, (2, (3,)))",
+  # containers whose *keys* or row-id lists are instances of subclasses (round 5)
+  "{type('S', (str,), {})('k'): 1}", "{'o': {type('S', (str,), {})('k'): [type('S', (str,), {})('v')]}}",
+  "{type('S', (str,), {'__str__': lambda self: 'other'})('k'): 2}",
+  "H.lookupRecords(sort_by='a')", "H.lookupRecords(a=$a)", "H.lookupRecords(sort_by='-a').id",
+  "{'rs': H.lookupRecords(sort_by='a')}", "[H.lookupRecords(a=1), H.lookupOne(a=2)]",
+  "__import__('collections').OrderedDict([('a', 1)])", "__import__('collections').Counter('aab')",
+  "__import__('collections').namedtuple('P', 'x y')(1, 2)",
+  "__import__('enum').IntEnum('E', 'A B').A", "__import__('enum').Enum('E', 'A B').A",
 ]
 
 
@@ -792,6 +800,23 @@ class C24(Profile):
     r = rng.random()
     cid = g.new_col_id("h")
     ctype = rng.choice(cfg["types"])
+    if rng.random() < 0.2:
+      # an echo: the value another (hostile) column holds after its type's conversion, passed on
+      # as is or inside a container, by a column that does no conversion of its own
+      dv = DocView(sim.sigma)
+      t = dv.tables.get("H")
+      hcols = [c.colId for c in t.cols.values() if c.colId.startswith("h")] if t else []
+      if hcols:
+        src = rng.choice(hcols)
+        expr = rng.choice(["$%s", "[$%s]", "{'k': $%s}", "rec.%s", "list($%s or [])"]) % src
+        ctype = "Any"
+    elif rng.random() < 0.12:
+      # a reference-typed formula column fed by a lookup: its cells hold the type's own list
+      # class (RecordList), which echo columns then pass on
+      expr = rng.choice(["H.lookupRecords(sort_by='a')", "H.lookupRecords(a=$a)", "H.lookupRecords(sort_by='-a')",
+                         "H.lookupRecords(a=1, order_by='-id')", "H.all", "[r for r in H.all]"])
+      ctype = "RefList:H"
+      r = 0.0
     if r < 0.55:
       return {"k": "bundle", "a": [["AddColumn", "H", cid, {"type": ctype, "isFormula": True,
                                                            "formula": expr}]], "ops": ["hostile_formula"]}
